@@ -176,7 +176,7 @@ static cbor_item_t* _cbor_copy_int(cbor_item_t* item, bool negative) {
       break;
   }
 
-  if (negative) cbor_mark_negint(res);
+  if (negative && res != NULL) cbor_mark_negint(res);
 
   return res;
 }
